@@ -13,6 +13,8 @@
 EXTENDS Integers, FiniteSets, Sequences, TLC
 
 CONSTANTS NTasks, MaxT, MD, MaxCalls, DueCheck, AtomicHandlers,
+          ResetUnderLock, \* executeAt is cleared together with the start decision, under the task lock (TRUE = repaired
+                          \* tree; FALSE = pinned tree: cleared by the launched goroutine without the lock, finding F-C07-4)
           Fault   \* "none", or a plausible regression whose counterexamples become adversarial scripts:
                   \* "cancelctx" (the start check trusts the task context, which is refreshed after a run, instead of the
                   \* canceled flag), "overtimenodue" (the due re-check guards only the promote branch),
@@ -110,11 +112,15 @@ RWL(r, t) ==
        ELSE IF (IF Fault = "cancelctx" THEN r.ctxc[t] ELSE r.canceled[t])
        THEN [go |-> FALSE, r |-> r1]
        ELSE [go |-> TRUE, r |-> [r1 EXCEPT !.executing[t] = (Fault # "lateexecuting"), !.startedCanceled = @ \/ r.canceled[t],
+                                           !.execAt[t] = IF ResetUnderLock THEN 0 ELSE @,
                                            !.early = @ \/ (r.subKind[t] = "sched" /\ r.now < r.schedAt[t]),
                                            !.subKind[t] = "none", !.subAfter[t] = FALSE]]
 
 \* queueWg.Add(1); go executeWithLocking
-Launch(r, t) == [r EXCEPT !.overlap = @ \/ r.running[t], !.running[t] = TRUE, !.slot[t] = TRUE, !.executing[t] = TRUE]
+\* (the launched goroutine clears executeAt "to detect if the task set its next execution itself": a schedule entry made
+\*  since the start decision keeps its place in the list but loses its time)
+Launch(r, t) == [r EXCEPT !.overlap = @ \/ r.running[t], !.running[t] = TRUE, !.slot[t] = TRUE, !.executing[t] = TRUE,
+                          !.execAt[t] = IF ResetUnderLock THEN @ ELSE 0]
 
 \* ------------------------------------------------------------------ queue handler
 QWake == /\ s.qh = "idle" /\ s.signal
@@ -144,7 +150,7 @@ SFront == /\ s.sh = "fired"
                   THEN [s EXCEPT !.sh = "arm"]
                   ELSE LET t == Head(s.sched) IN
                        \* acting on an entry that is not due: an only-scheduled task is promoted before its time
-                       LET e == s.early \/ (s.subKind[t] = "sched" /\ s.execAt[t] > s.now) IN
+                       LET e == s.early \/ (s.subKind[t] = "sched" /\ s.schedAt[t] > s.now) IN
                        \* running a queued task directly although its max delay has not expired
                        IF s.overtime[t] THEN [s EXCEPT !.st = t, !.overtime[t] = FALSE, !.sh = "rwl", !.early = e,
                                                       !.earlyOT = @ \/ (s.execAt[t] > s.now)]
